@@ -1,6 +1,7 @@
 package main
 
 import (
+	"go/constant"
 	"fmt"
 	"go/types"
 	"strings"
@@ -13,6 +14,7 @@ func init() {
 		ID: "C03",
 		Explanation: "Static rules on the handshake path (internal/app/server/auth_handler.go, session/packet_handler_handshake.go, connection/types.go). " +
 			"R-C03-1: every program-wide writer of a control connection's identity (SetClientID, SetAuthenticated(non-false), stores to ControlConnection.ClientID/Authenticated) is one of: the accessor itself, a proof point (dominated by a successful VerifyResponse or by successful issuance of fresh credentials), a registry re-assertion (UpdateAuth, whose callers are under R-C03-4), or a branch that is dead because no type in the program satisfies the interface assertion guarding it. " +
+			"R-C03-6: the verifier itself: VerifyResponse says yes only through hmac.Equal after a successful Decrypt of the stored secret, keyed with the decrypted secret; Decrypt succeeds only with the plaintext the AEAD opened; ban/blacklist expiry comparisons honour permanent (zero-expiry) entries. " +
 			"R-C03-2: at the challenge proof point the pending challenge is read from this connection, tested non-empty and cleared before VerifyResponse; VerifyResponse is applied to the stored secret of the config looked up for req.ClientID, that challenge and req.ChallengeResponse; the id granted is req.ClientID; at the issuance proof point the id granted is the freshly generated one. " +
 			"R-C03-3: in HandleHandshake no credential function (fresh issuance, config lookup, phase 1/2) is reachable from the rejecting edge of the blacklist, ban, rate-limit or expiry tests, and each gate is passed on every path to them unless its component is nil. " +
 			"R-C03-4: the session layer touches the client registry / connection-state store / config push only under err == nil of HandleHandshake and IsAuthenticated() && GetClientID() > 0 of this connection, passes that connection's own id, and the error edge returns without registry writes. " +
@@ -236,6 +238,75 @@ func runC03(r *Report) {
 
 		checkHandshakeGates(r, "R-C03-3", hh)
 	}
+
+	// ---- R-C03-6 the verifier itself ------------------------------------------------
+	// VerifyResponse says yes only through the constant-time comparison of the HMAC keyed with the
+	// *decrypted* stored secret; Decrypt succeeds only with what the AEAD opened (no success with a
+	// constant / empty secret: an HMAC keyed with "" can be computed by anyone).
+	const secPkgC03 = "internal/security"
+	if vr := r.need("R-C03-6", secPkgC03, "SecretKeyManager.VerifyResponse"); vr != nil {
+		decs := Calls(vr, false, "SecretKeyManager.Decrypt")
+		for _, ret := range Returns(vr) {
+			v := stripValue(RetVal(ret, 0))
+			if k, isC := v.(*ssa.Const); isC && k.Value != nil && !constant.BoolVal(k.Value) {
+				continue // `return false`
+			}
+			c, _ := CallOfValue(v)
+			okEq := c != nil && CalleeOf(c).Is("hmac:Equal", "subtle:ConstantTimeCompare")
+			okDec := false
+			if okEq && len(decs) == 1 {
+				okDec = ErrOK(ret.Block(), decs[0])
+			}
+			// the key of the expected response is the decrypted secret
+			okKey := false
+			if okEq {
+				for _, cr := range Calls(vr, false, "SecretKeyManager.ComputeResponse") {
+					if kc, idx := CallOfValue(Arg(cr, 0)); kc != nil && len(decs) == 1 && ssa.CallInstruction(kc) == decs[0] && idx == 0 && originSummary(Arg(cr, 1)) == "param:challenge" {
+						okKey = true
+					}
+				}
+			}
+			r.Ob("R-C03-6", ret.Pos(), okEq && okDec && okKey, fmt.Sprintf("VerifyResponse answers through hmac.Equal (%v) after a successful Decrypt of the stored secret (%v), keyed with the decrypted secret over this challenge (%v)", okEq, okDec, okKey), "VerifyResponse", "verdict-is-hmac-equal")
+		}
+		if len(decs) == 1 {
+			r.Ob("R-C03-6", CallPos(decs[0]), originSummary(Arg(decs[0], 0)) == "param:encryptedKey", "the secret decrypted is the stored secret handed in ("+originSummary(Arg(decs[0], 0))+")", "VerifyResponse", "decrypts-stored-secret")
+		}
+	}
+	if dc := r.need("R-C03-6", secPkgC03, "SecretKeyManager.Decrypt"); dc != nil {
+		var opens []ssa.CallInstruction
+		Instrs(dc, func(in ssa.Instruction) {
+			if ci, ok := in.(ssa.CallInstruction); ok && CalleeOf(ci).Name == "Open" && CalleeOf(ci).Recv == "AEAD" {
+				opens = append(opens, ci)
+			}
+		})
+		for _, ret := range Returns(dc) {
+			if RetErrKind(ret) != "nil" {
+				continue
+			}
+			ok := false
+			for _, o := range opens {
+				if ErrOK(ret.Block(), o) {
+					if c, idx := CallOfValue(RetVal(ret, 0)); c != nil && ssa.CallInstruction(c) == o && idx == 0 {
+						ok = true
+					}
+				}
+			}
+			r.Ob("R-C03-6", ret.Pos(), ok, "Decrypt succeeds only with the plaintext the AEAD opened (authenticated decryption of the stored secret); any other success hands the verifier a secret an attacker can know", "Decrypt", "success-is-opened-plaintext")
+		}
+	}
+	if cr := r.need("R-C03-6", secPkgC03, "SecretKeyManager.ComputeResponse"); cr != nil {
+		ok := false
+		for _, h := range Calls(cr, false, "hmac:New") {
+			if originSummary(Arg(h, 1)) == "param:secretKey" {
+				ok = true
+			}
+		}
+		r.Ob("R-C03-6", cr.Pos(), ok, "the expected response is an HMAC keyed with the secret", "ComputeResponse", "hmac-keyed-with-secret")
+	}
+	// gate predicates honour permanent entries (zero expiry = never): a permanent ban or blacklist
+	// entry must never be read as expired or be replaced by a shorter one through a clock comparison
+	checkZeroExpiryGuard(r, "R-C03-6", secPkgC03, "BanRecord", "ExpiresAt")
+	checkZeroExpiryGuard(r, "R-C03-6", secPkgC03, "IPRecord", "ExpiresAt")
 
 	// ---- R-C03-5 extractIP uses the typed branch ---------------------------------
 	if ex := r.need("R-C03-5", authPkg, "extractIP"); ex != nil {
